@@ -230,4 +230,4 @@ def run_case(case: dict[str, Any]) -> Outcome:
 
 
 def main(chk: Check) -> None:
-    chk.explore("errors", cases, run_case, quick=500, thorough=8000)
+    chk.explore("errors", cases, run_case, quick=2000, thorough=8000)
